@@ -115,6 +115,23 @@ func (s *Server) SetScript(script []Step) {
 	}
 }
 
+// Quiesce ends the current generation at this upstream: connections that never read are reset, and the call waits (bounded)
+// until every other connection's reader has seen the end of its stream.
+func (s *Server) Quiesce(timeout time.Duration) {
+	s.mu.Lock()
+	s.gen++
+	s.mu.Unlock()
+	for dl := time.Now().Add(timeout); time.Now().Before(dl); {
+		s.mu.Lock()
+		n := len(s.conns)
+		s.mu.Unlock()
+		if n == 0 {
+			return
+		}
+		time.Sleep(time.Millisecond)
+	}
+}
+
 // ScriptExhausted reports whether every scripted step has been used (the server is healthy from then on).
 func (s *Server) ScriptExhausted() bool {
 	s.mu.Lock()
@@ -258,9 +275,25 @@ func (s *Server) serve(conn net.Conn, k int, st Step) {
 		if tc, ok := conn.(*net.TCPConn); ok {
 			_ = tc.SetReadBuffer(2048)
 		}
-		<-s.stopCh // never read
-		rst(conn)
-		return
+		// never read; ends with the server or with the generation (Quiesce / SetScript)
+		s.mu.Lock()
+		g0 := s.gen
+		s.mu.Unlock()
+		for {
+			select {
+			case <-s.stopCh:
+				rst(conn)
+				return
+			case <-time.After(3 * time.Millisecond):
+			}
+			s.mu.Lock()
+			changed := s.gen != g0
+			s.mu.Unlock()
+			if changed {
+				rst(conn)
+				return
+			}
+		}
 	}
 	if st.Kind == "reset" && st.N == 0 {
 		rst(conn)
